@@ -51,6 +51,7 @@ PeerInit(NP, N, spec) ==
     alive  |-> TRUE,
     issued |-> [q \in 0..N-1 |-> {}],     \* handshake nonces sent to q and not yet answered
     matched |-> [q \in 0..N-1 |-> 0],     \* replies of q that answered an issued nonce (round trips)
+    lb |-> 0, rb |-> 0, haveStats |-> FALSE,   \* last network_stats: local / remote frames behind
     lastStall |-> FALSE,                \* the previous advance_frame call did not advance (inputs stay registered)
     gcount |-> 0,                       \* simulations of the glitch frame so far
     glitchCall |-> -1,                  \* number of the call in which the game's glitch fired
@@ -84,6 +85,7 @@ InitRun(c, viol, stats, run) ==
        transient |-> Get(c, "transient", FALSE),
        noInterrupt |-> Get(c, "no_interrupt", FALSE),
        forged |-> Get(c, "forged", FALSE),
+       ts |-> Get(c, "timesync", [on |-> FALSE]),        \* C15 scenario: [on, warmup, lat, tick]
        cd |-> Get(c, "check_distance", 2),               \* SyncTestSession: check distance
        glitchFrame |-> Get(c, "glitch_frame", -1),
        glitchK |-> Get(c, "glitch_k", 0),       \* the game's k-th simulation of this frame deviates
@@ -316,6 +318,14 @@ TickP2P(gg, r) ==
                nNew |-> 0, nPred |-> 0, nDisc |-> 0, nCorr |-> 0]
       acc  == IF ok THEN FoldLeft(LAMBDA a, rq : ReqStep(g1, p, r, a, rq), acc0, r.q) ELSE acc0
       pe1  == acc.pe
+      \* C15: with a steady lead the estimate equals the real lead (two player sessions)
+      tsOn == gg.ts.on /\ gg.N = 2 /\ ok /\ r.run /\ r.t >= 1000000 + gg.ts.warmup
+      other == 1 - p
+      lead == r.cur - gg.pr[other].cur
+      tsV == When(tsOn /\ (r.fa - lead > 2 \/ lead - r.fa > 2),
+                  V("C15", r.n, "frames-ahead-differs-from-the-real-lead", <<p, r.fa, lead>>))
+             \o When(tsOn /\ (r.fa + gg.pr[other].fa > 2 \/ r.fa + gg.pr[other].fa < -2),
+                     V("C15", r.n, "frames-ahead-of-the-two-peers-do-not-cancel", <<p, r.fa, gg.pr[other].fa>>))
       expV == When(Has(r, "expect") /\ ~(\E i \in 1..Len(r.expect) : r.expect[i] = r.r)
                      /\ ~(r.r = "ok" /\ pe0.lastStall),
                    V("C16", r.n, "misuse-not-rejected-as-documented", <<p, r.a, r.r, r.expect>>))
@@ -385,7 +395,7 @@ TickP2P(gg, r) ==
                               !.verified = @ + (ver1 - pe1.ver),
                               !.notSync = @ + (IF r.r = "E:NotSynchronized" THEN 1 ELSE 0)]
   IN AddViol([g3 EXCEPT !.stats = st1],
-             acc.vs \o endV \o finV \o confV \o syncV \o expV \o BufViol(gg, p, r))
+             acc.vs \o endV \o finV \o confV \o syncV \o expV \o tsV \o BufViol(gg, p, r))
 
 ---------------------------------------------------------------------------
 \* a `tick` line of a spectator session (C06)
@@ -559,7 +569,24 @@ OtherPeerLine(gg, r) ==
                    V("C16", r.n, "misuse-not-rejected-as-documented", <<p, r.a, r.r, r.expect>>))
               \o When(Has(r, "expect_add") /\ Has(r, "add") /\ r.add # r.expect_add,
                       V("C16", r.n, "misuse-not-rejected-as-documented", <<p, r.a, r.add, r.expect_add>>))
-  IN AddViol(g2, expV \o When(isPanic, V("PANIC", r.n, r.r, <<p>>))
+      \* C15: network_stats
+      isStats == r.a = "stats" /\ ~gg.isSpec[p] /\ gg.N = 2 /\ ~Has(r, "expect")
+      early == r.t - 1000000 < 1000
+      statsV == When(isStats /\ early /\ r.r = "ok",
+                     V("C15", r.n, "network-stats-before-enough-data", <<p, r.t>>))
+                \o When(isStats /\ ~early /\ r.t - 1000000 >= 1100 /\ gg.pr[p].run /\ r.r # "ok"
+                          /\ gg.pr[p].evs[1 - p][1] \in {"run", "intr"},
+                        V("C15", r.n, "network-stats-unavailable-after-one-second", <<p, r.r>>))
+                \o When(isStats /\ gg.ts.on /\ r.r = "ok" /\ r.t >= 1000000 + gg.ts.warmup
+                          /\ (r.ns[1] < 2 * gg.ts.lat \/ r.ns[1] > 2 * gg.ts.lat + 2 * gg.ts.tick + 1),
+                        V("C15", r.n, "ping-differs-from-the-round-trip-time", <<p, r.ns[1], 2 * gg.ts.lat>>))
+                \o When(isStats /\ gg.ts.on /\ r.r = "ok" /\ r.t >= 1000000 + gg.ts.warmup /\ gg.pr[1 - p].haveStats
+                          /\ (r.ns[3] - gg.pr[1 - p].rb > 2 \/ gg.pr[1 - p].rb - r.ns[3] > 2),
+                        V("C15", r.n, "local-frames-behind-differs-from-the-peers-remote-figure",
+                          <<p, r.ns[3], gg.pr[1 - p].rb>>))
+      g3 == IF isStats /\ r.r = "ok"
+            THEN [g2 EXCEPT !.pr[p].lb = r.ns[3], !.pr[p].rb = r.ns[4], !.pr[p].haveStats = TRUE] ELSE g2
+  IN AddViol(g3, expV \o statsV \o When(isPanic, V("PANIC", r.n, r.r, <<p>>))
                  \o (IF Has(r, "buf") /\ ~gg.isSpec[p] THEN BufViol(gg, p, r) ELSE <<>>))
 
 \* C05: after the faults ended every live session has advanced
